@@ -111,8 +111,9 @@ impl ShimIntoIter for ReadDir {
 pub broadcast axiom fn axiom_read_dir_items(rd: ReadDir)
     ensures (#[trigger] read_dir_items(rd)).len() == rd.paths@.len(),
         forall|i: int| 0 <= i < read_dir_items(rd).len() ==> (#[trigger] read_dir_items(rd)[i] matches Ok(e) ==> e.p@ == rd.paths@[i]),
-        // an error met while listing is an environmental error (EIO, EACCES...), never NotFound
-        forall|i: int| 0 <= i < read_dir_items(rd).len() ==> (#[trigger] read_dir_items(rd)[i] matches Err(e) ==> !e.not_found);
+        // MODELLING LIMIT: readdir(3) errors after a successful opendir(3) are not modelled — every listed entry is Ok
+        // (an I/O error while listing is reported by fs_read_dir itself); so `entry?` error paths are unreachable in the model
+        forall|i: int| 0 <= i < read_dir_items(rd).len() ==> (#[trigger] read_dir_items(rd)[i]) is Ok;
 
 impl World {
     pub open spec fn fs(&self) -> FsState { self.st@ }
